@@ -131,9 +131,10 @@ def switch(ctx, F):
         if nm == "serialize":
             ok = e == ("call", "serde::Serialize::serialize", (("ref", ("field", ("deref", P(1)), 0)), P(2)))
         else:
-            m = match(("call", "core::result::Result::<T, E>::map", (("call", "serde::Deserialize::deserialize", (P(1),)), ("fn", V("f")))), e) if e else None
-            ok = bool(m) and m["f"].endswith("::new")
-        ctx.ob(r, ("hash::FuzzyHash::" + nm, "forwards"), ok, "outer %s is %s" % (nm, sym.fmt(e) if e else e), cfg=F.key, where=obs[0].where())
+            why = common.wrapper_forwards(F, obs[0], "serde::Deserialize::deserialize", 1)
+            ok = why is None
+            e = None if ok else ("const", why)
+        ctx.ob(r, ("hash::FuzzyHash::" + nm, "forwards"), ok, "outer %s is %s" % (nm, (e[1] if e and e[0] == "const" else sym.fmt(e)) if e else e), cfg=F.key, where=obs[0].where())
 
 
 def visitors(ctx, F):
@@ -225,6 +226,12 @@ def _visitor_semantics(F, b, kind):
                     return ("Ok", ("obj", "hash parsed from the raw binary form"))
                 return outcome
 
+            def by_argument(x):
+                # `Self::try_from` passed as a function value (and_then(Self::try_from)): the impl is chosen by the argument type
+                if isinstance(x, tuple) and x[:1] == ("arr",):
+                    return array_parser(x)
+                raise evalx.Unknown("TryFrom::try_from applied to %s" % (x,))
+
             def str_parser(x, opt):
                 if x != V_ or opt != ("None",):
                     raise evalx.Unknown("from_str_bytes(%s, %s)" % (x, opt))
@@ -233,6 +240,7 @@ def _visitor_semantics(F, b, kind):
 
             asg = {"symbolic": True, "params": params, "cparams": {"SIZE_IN_BYTES": N},
                    "calls": {"core::slice::<impl [T]>::len": slice_len, "core::slice::<impl [T]>::get": get_view, "TryFrom<&[u8; SIZE_IN_BYTES]>>::try_from": array_parser,
+                             "core::convert::TryFrom::try_from": by_argument,
                              "::from_str_bytes": str_parser},
                    "xcalls": {"TryInto<U>>::try_into": try_into, "for &'a [T; N]>::try_from": try_into}}
             try:
